@@ -143,6 +143,8 @@ void observe_doc(const json& req, Document& doc, json& out, bool returned_normal
     SexprOpts so;
     if (wants(req, "exprtypes"))
         so.expr_types = true;
+    if (wants(req, "nosymtypes"))
+        so.sym_types = false;
     if (wants(req, "dump"))
         out["dump"] = docdump(doc, so);
     if (wants(req, "positions"))
